@@ -234,7 +234,7 @@ def encode_op(case: F.Case, op: dict) -> str:
     if k in ("undo", "redo"):
         return f"S {k}"
     if k == "enable":
-        return f"S enable {len(op['keys'])} " + " ".join(map(str, op["keys"])) + f" {op['recompute']}"
+        return " ".join(["S", "enable", str(len(op["keys"]))] + list(map(str, op["keys"])) + [str(op["recompute"])])
     if k == "disable":
         return f"S disable {len(op['keys'])} " + " ".join(map(str, op["keys"]))
     if k == "qnb":
@@ -509,10 +509,10 @@ def rp_problems(case: F.Case, tracks, keys: list[int] | None = None) -> list[str
         g2.add_edges_from(tracks.graph.edges)
         try:
             fresh = SolutionTracks(g2, segmentation=seg.copy(), scale=case.scale, ndim=case.ndim)
-            fresh.enable_features([case.keyname[k] for k in shape_keys])
+            fresh.enable_features([F.NAME[k] for k in shape_keys])
             for n in g2.nodes:
                 for k in shape_keys:
-                    fresh_vals[(n, k)] = fresh.get_node_attr(n, case.keyname[k])
+                    fresh_vals[(n, k)] = fresh.get_node_attr(n, F.NAME[k])
         except Exception:
             fresh_vals = {}
     for n in tracks.graph.nodes:
@@ -565,7 +565,7 @@ def iou_problems(case: F.Case, tracks) -> list[str]:
         b = seg[g.nodes[v]["time"]] == v
         union = int(np.sum(a | b))
         exp = (int(np.sum(a & b)) / union) if union else 0.0
-        val = tracks.get_edge_attr((u, v), "iou")
+        val = tracks.get_edge_attr((u, v), case.keyname[F.K_IOU])
         skip = "skip" if g.nodes[v]["time"] - g.nodes[u]["time"] != 1 else "consecutive"
         if val is None or not F.close(val, exp, 1e-12):
             out.append(f"{skip}:edge {u}->{v} iou {val} != true overlap {exp}")
@@ -702,6 +702,7 @@ def run_session(prop: str, spec: dict, rng: random.Random, nops: int, res: Resul
     tid_off = False   # the tracklet feature has been switched off at some point of this session
     while True:
         plan_item = None
+        forced = bool(pending)
         if pending:
             op = pending.pop(0)
         elif queue is not None:
@@ -724,6 +725,23 @@ def run_session(prop: str, spec: dict, rng: random.Random, nops: int, res: Resul
             op = G.gen_op(rng, case, tracks, kinds, always_recompute=prop in ("C08", "C09"))
             if prop == "C10" and op["op"] == "disable" and F.K_BOGUS not in op["keys"] and rng.random() < 0.2:
                 op["keys"] = [k for k in op["keys"] if k != F.K_TID] + [F.K_TID]
+        if queue is None and plan is None and not forced and "enable" not in kinds and step > 2 and rng.random() < 0.03:
+            # enable_features([]) in the middle of a history: nothing is asked for, nothing may happen
+            # (in particular no recomputation of ids that recorded inverses refer to)
+            op = {"op": "enable", "keys": [], "recompute": 1}
+            res.count("session-shape:enable-empty-key-list")
+        elif queue is None and not forced and op["op"] == "enable" and F.K_BOGUS not in op["keys"] and rng.random() < 0.08:
+            op = dict(op, keys=[])   # nothing to enable: a no-op whatever is active
+            res.count("session-shape:enable-empty-key-list")
+        elif (prop in ("C08", "C09", "C10") and queue is None and plan is None and not forced and op["op"] == "enable"
+                and op.get("recompute") and F.K_BOGUS not in op["keys"] and rng.random() < 0.3
+                and getattr(tracks.features, "lineage_key", "x") is not None):
+            # "assume, then compute": the same keys first with recompute=False (stored values are taken as
+            # they are, possibly stale), then with recompute=True, which must compute although the
+            # features are active already
+            pending.append(dict(op, recompute=1))
+            op = dict(op, recompute=0)
+            res.count("session-shape:enable-assumed-then-recomputed")
         if prop in ("C07", "C09") and queue is None and op["op"] == "addnode" and case.cfg == "seg" and op.get("pixels") is None:
             op.pop("pos", None)  # a node without pixels is outside C07's consistent states (caller's choice)
         if prop == "C11" and queue is None and op["op"] == "paint" and op.get("value") and rng.random() < 0.15:
@@ -909,7 +927,8 @@ def run_session(prop: str, spec: dict, rng: random.Random, nops: int, res: Resul
                 for p in seg_problems(case, tracks):
                     fail(f"{kind}|refused|{p.split(':')[0]}", f"after the refused {op} ({out}): {p}")
         if prop == "C08" and case.cfg == "seg" and accepted:
-            for p in rp_problems(case, tracks, [F.K_POS, F.K_AREA] if kind == "enable" and not op.get("recompute") else None):
+            for p in rp_problems(case, tracks, [k for k in case.rp_active(tracks) if k not in op["keys"]]
+                                 if kind == "enable" and not op.get("recompute") else None):
                 fail(f"{kind}|{p.split(':')[0]}", f"after {op}: {p}")
         if prop == "C09" and case.cfg == "seg" and accepted and not (kind == "enable" and not op.get("recompute")):
             if not op.get("_stale_iou"):
@@ -944,7 +963,7 @@ def run_session(prop: str, spec: dict, rng: random.Random, nops: int, res: Resul
                 if kind == "disable" and accepted:
                     for k in op["keys"]:
                         if k == F.K_IOU:
-                            frozen[k] = {e: tracks.get_edge_attr(e, "iou") for e in tracks.graph.edges}
+                            frozen[k] = {e: tracks.get_edge_attr(e, case.keyname[F.K_IOU]) for e in tracks.graph.edges}
                         elif k in F.RP_KEYS or k in (F.K_TID, F.K_LIN):
                             frozen[k] = {n: canon_value(tracks.graph.nodes[n].get(case.keyname[k])) for n in tracks.graph.nodes}
                 if kind == "enable" and accepted:
@@ -965,7 +984,7 @@ def run_session(prop: str, spec: dict, rng: random.Random, nops: int, res: Resul
                             if not tracks.graph.has_edge(*x):
                                 vals.pop(x)
                                 continue
-                            now = tracks.get_edge_attr(x, "iou")
+                            now = tracks.get_edge_attr(x, case.keyname[F.K_IOU])
                         else:
                             if x not in tracks.graph:
                                 vals.pop(x)
@@ -1155,8 +1174,8 @@ def prim_cases(prop: str, rng: random.Random, n: int, res: Result) -> list[Failu
                     eat["w"] = rng.randrange(100)
                     enc[F.K_W] = eat["w"]
                     if case.cfg == "seg" and case.iou_active(t):
-                        eat["iou"] = float(rng.randrange(2, 9))
-                        enc[F.K_IOU] = int(eat["iou"])
+                        eat[case.keyname[F.K_IOU]] = float(rng.randrange(2, 9))
+                        enc[F.K_IOU] = int(eat[case.keyname[F.K_IOU]])
                 desc["attributes"] = dict(eat)
                 mline = f"SP addedge {e[0]} {e[1]} " + " ".join(case.enc_attrs(enc))
                 make = (lambda: AddEdge(t, e, attributes=dict(eat))) if eat else (lambda: AddEdge(t, e))  # noqa: E731
@@ -1349,7 +1368,21 @@ def controller_sessions(prop: str, rng: random.Random, n: int, res: Result) -> l
                 if kind == "addedge":
                     call = lambda: ctl.add_edges([(op["u"], op["v"])], force=bool(op["force"]))  # noqa: E731
                 elif kind == "deledge":
-                    call = lambda: ctl.delete_edges([(op["u"], op["v"])])  # noqa: E731
+                    es_ = [(op["u"], op["v"])]
+                    r_ = rng.random()
+                    others_ = [e for e in g.edges if e != es_[0]]
+                    if r_ < 0.4 and others_ and g.has_edge(*es_[0]):
+                        es_.append(tuple(rng.choice(others_)))      # several edges in ONE call
+                        if r_ < 0.1 and len(others_) > 1:
+                            es_.append(tuple(rng.choice([e for e in others_ if e != es_[1]])))
+                    elif r_ < 0.5 and g.has_edge(*es_[0]):
+                        es_ = es_ * 2                                # the same edge twice: the second raises
+                    elif r_ < 0.54:
+                        es_ = []
+                    op = dict(op, edges=[list(e) for e in es_])
+                    if g.has_edge(*es_[0]) if es_ else False:
+                        multi = len(set(es_))
+                    call = lambda: ctl.delete_edges([tuple(e) for e in op["edges"]])  # noqa: E731
                 elif kind == "delnode":
                     call = lambda: ctl.delete_nodes([op["n"]])  # noqa: E731
                 elif kind == "swap":
@@ -1368,6 +1401,10 @@ def controller_sessions(prop: str, rng: random.Random, n: int, res: Result) -> l
                         # a node that does not exist, after some that do: refused as a whole
                         targets = targets + [G.fresh_node_id(rng, t)]
                     op = {"op": "updattrs", "nodes": targets, "attrs": {"score": [rng.randrange(100) for _ in targets]}}
+                    if len(targets) >= 2 and rng.random() < 0.12:
+                        # a value list shorter than the node list: IndexError after some nodes were updated
+                        op["attrs"]["score"] = op["attrs"]["score"][:-1]
+                        op["_short"] = 1
                     call = lambda: ctl.update_node_attrs(op["nodes"], op["attrs"])  # noqa: E731
                 elif kind == "paint":
                     if "groups" not in op:
@@ -1433,7 +1470,7 @@ def controller_sessions(prop: str, rng: random.Random, n: int, res: Result) -> l
             except (InvalidActionError, ValueError, KeyError, nx.NetworkXError) as e:
                 out = "raised:" + type(e).__name__
             except Exception as e:  # noqa: BLE001
-                out = "raised-other:" + type(e).__name__
+                out = ("raised:" if (op.get("_short") and isinstance(e, IndexError)) else "raised-other:") + type(e).__name__
             hist.append({k: v for k, v in op.items() if k != "groups"} | {"_out": out})
             res.evaluations += 1
             if sc_lines is not None:
@@ -1553,7 +1590,8 @@ def sc_line(case: F.Case, kind: str, op: dict) -> str | None:
     if kind == "addedge":
         return f"SC addedges 1 {op['u']} {op['v']} {op['force']}"
     if kind == "deledge":
-        return f"SC deledges 1 {op['u']} {op['v']}"
+        es = op.get("edges", [[op["u"], op["v"]]])
+        return " ".join(["SC", "deledges", str(len(es))] + [f"{u} {v}" for u, v in es])
     if kind == "delnode":
         return f"SC delnodes 1 {op['n']}"
     if kind == "swap":
@@ -1714,6 +1752,7 @@ def prim_frozen_cases(prop: str, rng: random.Random, n: int, res: Result) -> lis
     seen: set = set()
     for _ in range(n):
         spec = G.gen_case(rng, cfg="seg", with_ids=True)
+        spec.pop("rename", None)   # (this sub-family addresses the features by their default names)
         try:
             ses = Session(spec)
         except Exception as e:
@@ -1833,6 +1872,7 @@ def plain_tracks_cases(prop: str, rng: random.Random, n: int, res: Result) -> li
                     have.add((u, v))
                     spec["edges"].append({"u": u, "v": v})
                     extra.append([u, v])
+        spec.pop("rename", None)   # a plain Tracks object built here: default feature names
         case = F.Case(spec)
         g = nx.DiGraph()
         for x in spec["nodes"]:
